@@ -30,6 +30,7 @@ CONFIGS = {
     "fail": ["fail"],
     "noop": ["noop"],
     "one+fail": ["n1", "fail"],
+    "one+fail+noop": ["n1", "fail", "noop"],
     "two": ["n1", "n2"],
     "dup": ["n1", "n1"],
 }
@@ -96,6 +97,8 @@ class UpdateTaskState(Unit):
             "a join whose execution for the satisfied barrier is in flight on this route is not staged ready again by a further arriving branch (it runs once per satisfaction, not once per arrival)"},
         "C07.uts.ready_from_satisfied": {"props": ["C07"], "text":
             "the ready flag of a (re)staged non-command successor equals 'inbound criteria satisfied'"},
+        "C04.uts.cleanup_marked": {"props": ["C04", "C01"], "text":
+            "every ready non-command task staged by a completing task that also takes a fail command is marked run_on_fail - whatever other commands (noop, continue) the task takes before or after the fail - so the documented clean-up tasks are still offered once the workflow has failed"},
         "C04.uts.run_on_fail_marking": {"props": ["C04", "C10"], "text":
             "run_on_fail is set only on ready non-command entries staged beside a fail command whose condition was true"},
         "C18.uts.unrelated_staged_untouched": {"props": ["C18", "C04", "C09"], "text":
@@ -167,7 +170,7 @@ class UpdateTaskState(Unit):
                 if cfg == "one" and (has_row or rec == st.RETRYING or (rec in st.COMPLETED_STATUSES and
                                                  ev in st.COMPLETED_STATUSES + [st.RUNNING, st.REQUESTED])):
                     keep.append(s_)
-                elif cfg in ("one+fail", "join", "dup") and completing and rec in heavy_recs and \
+                elif cfg in ("one+fail", "one+fail+noop", "join", "dup") and completing and rec in heavy_recs and \
                         (rec == st.RUNNING or ev in (st.SUCCEEDED, st.FAILED)):
                     keep.append(s_)
                 elif cfg in ("leaf", "fail", "noop", "two") and (ev, rec) in ((st.SUCCEEDED, st.RUNNING), (st.FAILED, st.RUNNING)):
@@ -540,6 +543,18 @@ class UpdateTaskState(Unit):
                     rz = rdy.z if isinstance(rdy, SBool) else z3.BoolVal(bool(rdy))
                     O("C04.uts.run_on_fail_marking", z3.And(z3.BoolVal(fail_true and x["id"] not in COMMANDS and completed_now), rz))
             O("C04.uts.run_on_fail_marking", True)
+            # ... and every ready clean-up task staged beside a taken fail command IS marked, whatever
+            # other commands (noop, continue) the same task takes before or after the fail
+            if fail_true and completed_now:
+                for i in true_idx:
+                    if targets[i] in COMMANDS:
+                        continue
+                    for x in staged:
+                        if x["id"] == targets[i] and (id(x) not in snap_staged or x in touched):
+                            rdy = x["ready"]
+                            rz = rdy.z if isinstance(rdy, SBool) else z3.BoolVal(bool(rdy))
+                            O("C04.uts.cleanup_marked", z3.Implies(rz, z3.BoolVal(x.get("run_on_fail") is True)))
+            O("C04.uts.cleanup_marked", True)
             O("C18.uts.unrelated_staged_untouched", unrelated in staged and _same(e, unrelated, snap_staged[id(unrelated)]))
             # separation
             for r in appended:
